@@ -333,6 +333,9 @@ func streamHCheck(t *testing.T, o *Out) {
 		if r.Intn(5) < 2 {
 			k = 6 + r.Intn(5)
 		}
+		if r.Intn(25) == 0 {
+			k = 11 + r.Intn(2) // more than the maximum: rejected as a whole, by both transports
+		}
 		o.Count(fmt.Sprintf("batch-size:%d", k))
 		o.Pre("hcheck", fmt.Sprintf("h%d", i), fmt.Sprintf("%d (entries of this case: regenerate the run; max-depth=%d)", k, depth))
 		entries := make([]hEntry, k)
